@@ -62,9 +62,13 @@ func (c *Ctx) has(fn *ssa.Function) bool {
 type termer struct {
 	visiting map[ssa.Value]bool
 	depth    int
+	nodes    int
 }
 
-const maxTermDepth = 14
+const maxTermDepth = 48
+const maxTermNodes = 4000
+
+var truncSeq int
 
 // TermOf renders v in context ctx.
 func TermOf(v ssa.Value, ctx *Ctx) *Term {
@@ -82,8 +86,11 @@ func (t *termer) term(v ssa.Value, ctx *Ctx) *Term {
 	}
 	t.depth++
 	defer func() { t.depth-- }()
-	if t.depth > maxTermDepth {
-		return mk("unknown", "…", v, ctx)
+	t.nodes++
+	if t.depth > maxTermDepth || t.nodes > maxTermNodes {
+		// truncated sub-terms get unique names: two truncated terms never compare equal
+		truncSeq++
+		return mk("unknown", fmt.Sprintf("…%d", truncSeq), v, ctx)
 	}
 	switch x := v.(type) {
 	case *ssa.Parameter:
